@@ -130,8 +130,12 @@ func changeValues(r *rand.Rand, specs []accSpec) []accSpec {
 			out[i].Hue = float64((int(out[i].Hue) + 1 + r.Intn(300)) % 360)
 		case 3:
 			out[i].Temp = float64((int(out[i].Temp) + 1 + r.Intn(40)) % 50)
-		default: // the accessory name is a characteristic value too
+		default: // the accessory name is a characteristic value too (so are serial number and model, built from it) …
 			out[i].Name = fmt.Sprintf("renamed %d", r.Intn(100000))
+			if r.Intn(2) == 0 {
+				// … of any length: a value is a value, also a long one
+				out[i].Name += " " + strings.Repeat("long name ", 20)[:60+r.Intn(120)]
+			}
 		}
 	}
 	return out
